@@ -88,6 +88,11 @@ impl SymbolTable {
         self.contexts.last_mut().unwrap()
     }
 
+    /// Returns true if the current context is local to a function (so not the global context)
+    pub fn in_function(&self) -> bool {
+        self.contexts.len() > 1
+    }
+
     /// Create a new context to define symbols in.
     /// This will always be a local context (as there is only one global context).
     pub fn new_context(&mut self) {
